@@ -88,13 +88,32 @@ single("CheckROCA", self_fields={"_fc": ROCA_OBJ}, criterion="ufb('roca_weak', g
 single("CheckROCAVariant", self_fields={"_fcv": ROCAV_OBJ}, criterion="ufb('roca_variant_weak', g_N)")
 single("CheckHighAndLowBitsEqual", on_att=ON_ATT_PRODUCT)
 single("CheckOpensslDenylist", self_fields={"_storage": "ref:Storage", "_weak_keylist": "ref:StrSet"})
-single("CheckContinuedFractions", self_fields={"_bound": "int"})
-single("CheckPollardpm1", self_fields={"_m": "int"}, requires=["self._m >= 1"])
+# checks that also flag on suspicion (the library function says weak without producing factors): the entry of THIS key is
+# positive exactly when the verdict returned by the library function for THIS key's modulus is (C05: "flagged when ...";
+# the verdict itself is pinned by the callee's contract, e.g. the gcd gate and the g > 1 criterion of Pollardpm1)
+RU = "paranoid_crypto/lib/rsa_util.py"
+
+
+def _suspicion(fn, verdict="ret[0]"):
+  return dict(on_call={SET: list(ON_SET), ATT: list(ON_ATT_PRODUCT + ON_ATT_PROPER),
+                       f"{RU}::{fn}": ["g_calls = g_calls + 1", f"g_weak = {verdict}",
+                                       "assert [C05,C06,C17] args[0] == g_N"]},
+              entry_ghost=list(ENTRY) + ["g_weak = False", "g_calls = 0"])
+
+
+_SUSP_HEAD = {0: dict(head=["g_weak = False", "g_calls = 0"],
+                      body_end=[("C05,C06,C17", "g_calls == 1"), ("C05,C06,C17", "g_res == g_weak")])}
+single("CheckContinuedFractions", self_fields={"_bound": "int"}, loops_extra=_SUSP_HEAD,
+       extra=_suspicion("CheckContinuedFraction", "not ret[0]"))   # returns (ok, factors)
+single("CheckPollardpm1", self_fields={"_m": "int"}, requires=["self._m >= 1"], loops_extra=_SUSP_HEAD,
+       extra=_suspicion("Pollardpm1"))
 single("CheckSmallUpperDifferences")
 _LHW_BE = [c for c in BODY_END if "g_sev" not in c[1]] + [
     # documented exception: suspected-only keys (weak without factorisation) carry SEVERITY_UNKNOWN
     ("C16", "g_sev == (paranoid_pb2.SeverityType.SEVERITY_UNKNOWN if (g_res and not g_attached) else self.severity)")]
-single("CheckLowHammingWeight", on_att=ON_ATT_PRODUCT, body_end=_LHW_BE)
+_lhw = _suspicion("CheckLowHammingWeight")
+_lhw["on_call"][ATT] = list(ON_ATT_PRODUCT)
+single("CheckLowHammingWeight", on_att=ON_ATT_PRODUCT, body_end=_LHW_BE, loops_extra=_SUSP_HEAD, extra=_lhw)
 
 _SEARCH_INV = [("C16", "any_weak == g_any"), ("C01,C04,C05,C16,C17,C18", "not test_result.result"),
                ("C01,C04,C05,C16,C17,C18", "not g_attached"), ("C16,C18", "g_sets == 0"),
@@ -155,3 +174,23 @@ single("CheckKeypairDenylist", self_fields={"_storage": "ref:Storage", "_table":
                  "forall(t, 0, blen(self._table[k]), implies(t % 2 == 1, self._table[k][t] < 32)))"],
        loops_extra={1: dict(invariant=list(_SEARCH_INV) + ["len(seed) == 32", "i % 2 == 1"], keep={'g_N'})},
        extra={"on_assign": {"n": ["pow2_const(bit_length(n), 63)", "assert [C18] bit_length(n) >= 64"]}})
+
+
+# C04 "below the configured step bound": the bound the caller configures is the bound FermatFactor receives (a
+# constructor that replaces a configured bound, e.g. `max_steps or DEFAULT`, changes what "configured" means)
+@contract(f"{S}::CheckFermat.__init__")
+class CheckFermatInit:
+  params = {"max_steps": "Optional[int]"}
+  self_fields = dict(SELF_BASE, _max_steps="Optional[int]")
+  ensures = [("C04", "implies(max_steps is not None, self._max_steps is not None and self._max_steps == max_steps)")]
+  modifies = ["self._max_steps", "self.severity", "self.check_name"]
+  props = ["C04"]
+
+
+@contract(f"{S}::CheckContinuedFractions.__init__")
+class CheckContinuedFractionsInit:
+  params = {"bound": "Optional[int]"}
+  self_fields = dict(SELF_BASE, _bound="Optional[int]")
+  ensures = [("C05", "implies(bound is not None, self._bound is not None and self._bound == bound)")]
+  modifies = ["self._bound", "self.severity", "self.check_name"]
+  props = ["C05"]
